@@ -292,12 +292,14 @@ def parse_block(txt):
 
 
 def run_kani(cwd, package, target_dir, names, jobs, harness_timeout, mem_gb, total_timeout,
-             extra=None, logfile=None):
+             extra=None, logfile=None, exact=False):
     """One cargo-kani invocation deciding all `names` (substring filters), `jobs` in parallel."""
     t0 = time.time()
     args = []
     for n in names:
         args += ['--harness', n]
+    if exact:
+        args += ['--exact']
     args += ['--harness-timeout', f'{int(harness_timeout)}s']
     if extra is None:
         args += ['-j', str(jobs), '--output-format', 'terse']
